@@ -374,6 +374,20 @@ pub(crate) fn in_helper_scope() -> bool {
     HELPER_SCOPE.with(|h| h.get()) > 0
 }
 
+/// H5b: refuses absurdly long concatenations (a runaway loop that doubles a string or an array
+/// exhausts memory long before it exhausts the fuel).
+pub(crate) fn check_concat(lhs: &crate::variable::Variable, rhs: &crate::variable::Variable) {
+    use crate::variable::Variable;
+    let len = match (lhs, rhs) {
+        (Variable::String(a), Variable::String(b)) => a.len() + b.len(),
+        (Variable::Array(a), Variable::Array(b)) => a.len() + b.len(),
+        _ => 0,
+    };
+    if len / 64 > MAX_LEN.with(|l| l.get()) {
+        std::panic::panic_any(Abort::Length);
+    }
+}
+
 /// H5: refuses absurdly long `[v; n]` arrays.
 pub(crate) fn check_len(len: usize) {
     if len > MAX_LEN.with(|l| l.get()) {
